@@ -37,7 +37,7 @@ type frameObs struct {
 	caseID   string
 }
 
-var bodyKinds = []string{"zero", "canonical", "long-variable-parts", "absent"}
+var bodyKinds = []string{"zero", "canonical", "long-variable-parts", "absent", "member-type-of-another-key"}
 
 // frameWorkload drives every self-measuring frame type through key × body kind × history × stale
 // caller values and hands each observation to visit.
@@ -93,6 +93,10 @@ func frameWorkload(e *Env, needSum bool, reps int, visit func(o *frameObs)) {
 					case 2:
 						g.O = &gen.Opts{Lens: []int{17, 255}, StrLens: []int{1000, 5000}}
 						body = g.Value(bt)
+					case 4:
+						// the frame measures what the body emits, whatever the discriminator says it should be
+						other := j.tb.Entries[rng.Intn(len(j.tb.Entries))]
+						body = g.Value(e.S.Lookup(t.Pkg, other.Type))
 					}
 					frame := e.C.New[t.QName]()
 					fv := reflect.ValueOf(frame).Elem()
@@ -190,8 +194,9 @@ func frameCheck(e *Env, sum bool) {
 	if isAbsentChild(e) {
 		codec.Clear()
 	}
+	isDrainingChild(e)
 	if !sum {
-		r.Rule("every self-measuring frame type (SseBinary, SzseBinary, RcBinary, RootPacket) × every registered message type of its table × body kind {zero, canonical, long variable-length parts, absent} × buffer history H1..H7 (empty, random content, earlier frames, partly consumed, drained and reused, garbage in spare capacity, exactly header-sized spare capacity so that the backing array is reallocated between the length placeholder and its patch) × caller-supplied length/checksum {0, 4, 0xFFFFFFFF, random, already correct}; thorough adds frames > 8 MiB. distinct_nontrivial = distinct (type,key,body kind,history,stale) combinations whose body is non-empty")
+		r.Rule("every self-measuring frame type (SseBinary, SzseBinary, RcBinary, RootPacket) × every registered message type of its table × body kind {zero, canonical, long variable-length parts, absent, member type of another key} × buffer history H1..H7 (empty, random content, earlier frames, partly consumed, drained and reused, garbage in spare capacity, exactly header-sized spare capacity so that the backing array is reallocated between the length placeholder and its patch) × caller-supplied length/checksum {0, 4, 0xFFFFFFFF, random, already correct}; thorough adds frames > 8 MiB. distinct_nontrivial = distinct (type,key,body kind,history,stale) combinations whose body is non-empty")
 		r.Explain("Oracle: the length token found in the appended bytes at the schema position (SSE @12, SZSE @4, risk @8: big-endian u32; sample root @2: little-endian u32) == number of appended bytes − header − trailer == the frame object's length field after Encode == length of the reference encoder's rendering of the body.")
 	} else {
 		r.Rule("every checksummed frame type (SseBinary, SzseBinary, RootPacket) × every registered message type × body kind × buffer history H1..H7 × stale caller-supplied values, as for C04; thorough adds frames > 8 MiB with many 0xFF bytes. distinct_nontrivial = distinct combinations whose prior buffer content was non-empty")
@@ -200,6 +205,22 @@ func frameCheck(e *Env, sum bool) {
 	r.Assume("frame positions come from the pinned schema", "the checksum services are registered under their built-in names (start-up state)")
 	reps := e.N(3, 60)
 	byHist := newFeatAcc()
+	if sum && e.Only == "" {
+		// the process has already used every other codec of the library (a gateway speaks several protocols in
+		// one process): each of the 170 types is encoded and decoded once, frames also with a zero checksum field,
+		// before the checksummed frames are judged
+		for _, t := range e.S.Order {
+			for k := 0; k < 2; k++ {
+				v := e.Gen(&gen.Opts{}, "warm-up", t.QName, k).Value(t)
+				if f := reflect.ValueOf(v).Elem().FieldByName("Checksum"); f.IsValid() && k == 0 {
+					f.Set(reflect.Zero(f.Type()))
+				}
+				if w, err, p := EncodeFresh(v); err == nil && p == nil {
+					LibDecode(e.C.New[t.QName](), bytes.NewBuffer(append([]byte(nil), w...)))
+				}
+			}
+		}
+	}
 	frameWorkload(e, sum, reps, func(o *frameObs) {
 		t, fi := o.t, o.fi
 		r.Evals(1)
@@ -277,16 +298,109 @@ func frameCheck(e *Env, sum bool) {
 			r.Sample(map[string]any{"case": o.caseID, "prior_unread_bytes": len(o.pre), "appended": val.Hex(o.a, 48), "trailer": fmt.Sprintf("%#x", tok), "own_" + fi.alg: fmt.Sprintf("%#x", want)})
 		}
 	})
+	if sum && e.Only == "" {
+		specialChecksumValues(e)
+	}
 	if e.Thorough {
 		bigFrames(e, sum)
 	}
 	if !sum && !isAbsentChild(e) {
 		runAbsentChild(e) // the length field must be right whether or not a checksum service is registered
 	}
+	runDrainingChild(e) // ... and whatever an application-supplied service does with the buffer it is handed
 	r.Set("frames_by_history_body_and_type", byHist.m)
 	if sum && e.Only == "" && byHist.m["frames-with-nonempty-prior-buffer"] == 0 {
 		r.Inconclusive("no frame was encoded behind earlier buffer content")
 	}
+}
+
+// specialChecksumValues builds sample RootPacket frames whose CORRECT CRC-32 is a special value — 0, 0xFFFFFFFF,
+// 1, the stale value the caller left in the field — by solving for four payload bytes (CRC-32 is affine over
+// GF(2)), so that "0 means nothing was computed" style sentinels are exercised.  Byte-sum frames reach every
+// value 0..255 by chance.
+func specialChecksumValues(e *Env) {
+	r := e.R
+	t := e.S.Types["sample.RootPacket"]
+	if t == nil {
+		return
+	}
+	fi := frameOf(t)
+	solved := 0
+	for k, target := range []uint32{0, 0xFFFFFFFF, 1, 0x80000000, 0xDEADBEEF, 0} {
+		g := e.Gen(&gen.Opts{ForceKey: map[string]any{"sample.RootPacketMsgType": uint64(1)}}, "crc-special", k)
+		frame := g.Value(t)
+		fv := reflect.ValueOf(frame).Elem()
+		body := fv.FieldByName("Payload").Elem().Elem()
+		setU32 := func(x uint32) { body.FieldByName("FieldU32").SetUint(uint64(x)) }
+		crcOf := func() uint32 {
+			img, err := e.C.Encode(t, val.Clone(frame))
+			if err != nil || len(img) < 4 {
+				return 0
+			}
+			return uint32(ref.CRC32(img[:len(img)-4]))
+		}
+		setU32(0)
+		base := crcOf()
+		var cols [32]uint32
+		for i := 0; i < 32; i++ {
+			setU32(1 << uint(i))
+			cols[i] = crcOf() ^ base
+		}
+		// Gaussian elimination over GF(2): find x with XOR_{i in x} cols[i] == target ^ base
+		want := target ^ base
+		type row struct{ v, mask uint32 }
+		var basis []row
+		for i := 0; i < 32; i++ {
+			v, m := cols[i], uint32(1)<<uint(i)
+			for _, b := range basis {
+				if v^b.v < v {
+					v, m = v^b.v, m^b.mask
+				}
+			}
+			if v != 0 {
+				basis = append(basis, row{v, m})
+			}
+		}
+		var x uint32
+		for _, b := range basis {
+			if want^b.v < want {
+				want, x = want^b.v, x^b.mask
+			}
+		}
+		if want != 0 {
+			continue
+		}
+		setU32(x)
+		if crcOf() != target {
+			continue
+		}
+		solved++
+		stale := uint32(0x11111111)
+		if k == 5 {
+			stale = 0 // correct value 0 and the caller also left 0
+		}
+		fv.FieldByName("Checksum").SetUint(uint64(stale))
+		for h := 0; h < nHist; h++ {
+			m := val.Clone(frame)
+			fresh, _ := e.C.Encode(t, val.Clone(frame))
+			buf, pre := mkHistory(h, g.R, fresh, fi.hdr)
+			err, p := LibEncode(m, buf)
+			r.Evals(1)
+			if err != nil || p != nil || buf.Len() < len(pre)+4 {
+				r.Violate("C05/checksum/sample.RootPacket/special-value", "C05/checksum/sample.RootPacket", map[string]any{"type": t.QName, "error": fmt.Sprint(err, p)})
+				break
+			}
+			a := buf.Bytes()[len(pre):]
+			tok, _ := getIntAt(a, len(a)-4, 4, true)
+			obj := fieldBits(m, "Checksum")
+			if tok != uint64(target) || obj != uint64(target) {
+				r.Violate("C05/checksum/sample.RootPacket/special-value", "C05/checksum/sample.RootPacket", map[string]any{"type": t.QName, "history": histNames[h], "correct_CRC32_of_this_frame": fmt.Sprintf("%#x", target), "stale_caller_value": fmt.Sprintf("%#x", stale), "trailer_on_wire": fmt.Sprintf("%#x", tok), "object_checksum_after_encode": fmt.Sprintf("%#x", obj), "appended": val.Hex(a, 64)})
+				break
+			}
+			r.Distinct(val.Hash(fmt.Sprint("crc-special", k, h)))
+		}
+	}
+	r.Set("frames_whose_correct_CRC32_is_a_special_value(0,0xffffffff,1,...)", solved)
 }
 
 // bigFrames encodes frames larger than 8 MiB (SZSE Extend206302-style texts, risk texts) behind prior content.
